@@ -97,7 +97,8 @@ DataSeq == SetToSortSeq(Data, LAMBDA s, t : TRUE)
 LSOf(s) == <<<<"__name__", s.name>>>> \o (IF s.a = "" THEN <<>> ELSE <<<<"a", s.a>>>>) \o (IF s.b = "" THEN <<>> ELSE <<<<"b", s.b>>>>)
 DataScn == [i \in 1..Len(DataSeq) |-> Series(LSOf(DataSeq[i]), [u \in 1..6 |-> Smp(u - 1, "f", 3 * i + u)])]
 
-Positions == <<"bin", "sum", "fnarg", "range", "aggby", "groupleft", "cmp", "neg", "paren", "nested">>
+\* binon: `A + on () B` - selectors as direct operands, but matched on no label at all
+Positions == <<"bin", "sum", "fnarg", "range", "aggby", "groupleft", "cmp", "neg", "paren", "nested", "binon">>
 \* a well-mixed hash of the pair (indices of the matchers in the alphabet), so that every residue class holds every kind of pair
 MASeq == SetToSeq(MA)
 Idx(m) == CHOOSE i \in 1..Len(MASeq) : MASeq[i] = m
@@ -106,12 +107,13 @@ Hash(x) == LH(x.m1, 7919, 104729) + LH(x.m2, 1299709, 15485863) + (IF x.n1 = "m"
 \* different metrics sharing a matcher: PropagateMatchers looks at the pair and must leave it alone
 Shared(x) == x.n1 # x.n2 /\ (\E i \in 1..Len(x.m1) : InList(x.m2, x.m1[i]))
 \* `A + B` with both selectors as direct operands is the only position PropagateMatchers rewrites: half of the pairs it looks at go there
-PosOf(x) == IF (Applies(x) \/ Shared(x)) /\ (Hash(x) \div Mod) % 2 = 0 THEN "bin"
+PosOf(x) == IF (Applies(x) \/ Shared(x)) /\ (Hash(x) \div Mod) % 2 = 0 THEN (IF (Hash(x) \div (2 * Mod)) % 3 = 0 THEN "binon" ELSE "bin")
             ELSE Positions[((Hash(x) \div (2 * Mod)) % Len(Positions)) + 1]
 
 PlanOf(x) ==
   LET p == PosOf(x)  a == <<[Blank("sel") EXCEPT !.m = S1(x)]>>  b == <<[Blank("sel") EXCEPT !.m = S2(x)]>> IN
   CASE p = "bin"   -> Join(a, b, LAMBDA i, j : Bin("+", i, j))
+    [] p = "binon" -> Join(a, b, LAMBDA i, j : BinM("*", i, j, FALSE, "1:1", TRUE, <<>>, <<>>))
     [] p = "cmp"   -> Join(a, b, LAMBDA i, j : Bin(">=", i, j))
     [] p = "sum"   -> Join(Over(a, LAMBDA c : Agg("sum", TRUE, <<>>, <<c>>)), Over(b, LAMBDA c : Agg("sum", TRUE, <<>>, <<c>>)), LAMBDA i, j : Bin("+", i, j))
     [] p = "fnarg" -> Join(Over(a, LAMBDA c : Fn("abs", <<c>>)), b, LAMBDA i, j : Bin("+", i, j))
